@@ -5,7 +5,7 @@ set -e
 E=${EVAL_ROOT:-/tmp/eval}
 mkdir -p $E
 [ -d $E/repo ] || cp -r /repo $E/repo
-rsync -a --exclude 'work/' --exclude 'replays/' --exclude 'target/' --exclude 'evidence/' --exclude '*.vo' --exclude '*.vok' --exclude '*.vos' --exclude '*.glob' --exclude '.*.aux' --exclude 'runner/bin/' --exclude 'runner/build/' /verif/ $E/verif/
+rsync -a --exclude 'gen_c19/' --exclude 'gen_c11/' --exclude 'work/' --exclude 'replays/' --exclude 'target/' --exclude 'evidence/' --exclude '*.vo' --exclude '*.vok' --exclude '*.vos' --exclude '*.glob' --exclude '.*.aux' --exclude 'runner/bin/' --exclude 'runner/build/' /verif/ $E/verif/ || [ $? -eq 24 ]
 sed -i "s#path = \"/repo/#path = \"$E/repo/#" $E/verif/harness/Cargo.toml $E/verif/harness_c16/Cargo.toml
 # harness_c16 / harness_c17 build into the main harness's target directory through an absolute path: keep the clone's builds in the clone
 sed -i "s#target-dir = \"/verif/harness/target\"#target-dir = \"$E/verif/harness/target\"#" $E/verif/harness_c16/.cargo/config.toml $E/verif/harness_c17/.cargo/config.toml
